@@ -422,8 +422,46 @@ func (r *run) instantiate(d *Desc) {
 		r.insts = append(r.insts, l)
 		r.byName[d.Name] = l
 		r.captureCheck(l, before)
+		r.segmentCheck(l)
 	} else if got != "invalid" {
 		r.failedInstCheck(d, got, before)
+	}
+}
+
+// segmentCheck (tie C, the specification read directly, no model involved): after a successful instantiation the
+// bytes covered by the module's active data segments are the segments' bytes, later segments over earlier ones -
+// whatever was there before (an exporter's data, a store through another instance, zeros) and whatever the
+// bytes are (zeros included).
+func (r *run) segmentCheck(l *live) {
+	d := l.d
+	if len(d.Datas) == 0 || !d.HasMem() {
+		return
+	}
+	if d.Start != nil {
+		return // a start function may change the globals the offsets were computed from
+	}
+	exp := map[uint32]byte{}
+	var order []uint32
+	for _, x := range d.Datas {
+		off := uint32(x.Off.V)
+		if x.Off.K == 'g' {
+			off = uint32(r.must(l, fmt.Sprintf("acc_gget%d", x.Off.V)))
+		}
+		for k, b := range x.Bytes {
+			a := off + uint32(k)
+			if _, seen := exp[a]; !seen {
+				order = append(order, a)
+			}
+			exp[a] = b
+		}
+	}
+	for _, a := range order {
+		if got := byte(r.must(l, "acc_load", uint64(a))); got != exp[a] {
+			vio("impl-violation", "C04:active-data-segment-not-applied:"+r.engine,
+				fmt.Sprintf("after instantiating %s, byte %d of its memory is %#x; its active data segments put %#x there", d.Name, a, got, exp[a]), r.input(), exp[a], got)
+			r.failed = true
+			return
+		}
 	}
 }
 
